@@ -76,6 +76,9 @@ func coqCfg(sp *Spec) string {
 	for _, p := range sp.Pool {
 		pool = append(pool, coqPool[p])
 	}
+	if sp.PoolDelayMs > 0 {
+		delay = append(delay, "PRecvHeader")
+	}
 	_, tryMs := sp.effectiveTimeouts()
 	return fmt.Sprintf("{| c_oneway := %s; c_data := %s; c_trailers := %s; c_route := %s; c_nhosts := %s; c_retry_on := %s; c_num_retries := %s; c_codes := %s; c_try_timeout := %s; c_max_retries := %s; c_recv := %s; c_send := %s; c_pool := %s; c_delay := %s |}",
 		CoqBool(sp.Oneway), CoqBool(sp.HasData), CoqBool(sp.HasTrailers), route, CoqNat(sp.NHosts), CoqBool(sp.RetryOn), CoqNat(sp.NumRetries),
@@ -140,7 +143,7 @@ func timeline(r *Result) []Item {
 			if x.K >= 1 {
 				items = append(items, Item{T: x.T, Term: "TEv EvWake", Desc: fmt.Sprintf("wake@%d", x.T/1000)})
 			}
-		case "filter.wake":
+		case "filter.wake", "pool.wake":
 			items = append(items, Item{T: x.T, Term: "TEv EvWake", Desc: fmt.Sprintf("fwake@%d", x.T/1000)})
 		}
 	}
